@@ -1,5 +1,7 @@
 #include "common.h"
 void scen_c01(mt_case *);
+void scen_c02_unit(mt_case *);
+void scen_c02_lib(mt_case *);
 void scen_c03(mt_case *);
 void scen_c04(mt_case *);
 void scen_c05(mt_case *);
@@ -13,6 +15,7 @@ void scen_c14(mt_case *);
 void scen_c20(mt_case *);
 const mt_scenario mt_scenarios[] = {
   { 1, "C01 create/join", scen_c01 },
+  { 2, "C02 queue unit harness", scen_c02_unit },
   { 3, "C03 registers and stack", scen_c03 },
   { 4, "C04 mutex", scen_c04 },
   { 5, "C05 condition variables", scen_c05 },
@@ -24,5 +27,6 @@ const mt_scenario mt_scenarios[] = {
   { 13, "C13 reaping", scen_c13 },
   { 14, "C14 once", scen_c14 },
   { 20, "C20 sleep and timed waits", scen_c20 },
+  { 22, "C02 library with custom steal function", scen_c02_lib },
 };
 const int mt_n_scenarios = sizeof mt_scenarios / sizeof mt_scenarios[0];
